@@ -244,3 +244,33 @@ Definition mismatches_visit := mismatches ok_visit.
 Definition ok_bodies (c : list string * string * list string) : bool :=
   let '(declared, ct, obs) := c in list_eqb String.eqb (bodies_decoded declared ct) obs.
 Definition mismatches_bodies := mismatches ok_bodies.
+
+(** C11 *)
+From V Require Import Model.Enum.
+Definition table_fn (t : list (string * string)) (s : string) : string :=
+  match find (fun p => String.eqb (fst p) s) t with Some p => snd p | None => s end.
+
+Fixpoint insert_kv (p : string * string) (l : list (string * string)) :=
+  match l with
+  | [] => [p]
+  | q :: r => match String.compare (fst p) (fst q) with Gt => q :: insert_kv p r | _ => p :: l end
+  end.
+Definition sort_kv (l : list (string * string)) := fold_right insert_kv [] l.
+
+(** SanitizeEnumNames: observed = the returned map, sorted by key. *)
+Definition ok_sanitize (c : list (string * string) * list string * list string * list (string * string)) : bool :=
+  let '(norm_t, names, values, obs) := c in
+  list_eqb pair_eqb (sort_kv (stage2 (table_fn norm_t) (stage1 [] (combine names values)))) obs.
+Definition mismatches_sanitize := mismatches ok_sanitize.
+
+(** Constants of a generated file for one enum whose stage-2 and stage-3 keys are collision-free
+    (otherwise the result depends on map order): observed = (constant name, compiled value), sorted. *)
+Definition ok_constants (c : list (string * string) * list (string * string) * list string * list string * list (string * string)) : bool :=
+  let '(norm_t, norm2_t, names, values, obs) := c in
+  list_eqb pair_eqb (sort_kv (enum_constants (table_fn norm_t) (table_fn norm2_t) names values)) obs.
+Definition mismatches_constants := mismatches ok_constants.
+
+(** literal fidelity: observed = the value go/parser + strconv read back from the emitted literal *)
+Definition ok_literal (c : string * string) : bool :=
+  let '(lit, v) := c in opt_eqb String.eqb (go_unquote lit) (Some v) && String.eqb (quote v) lit.
+Definition mismatches_literal := mismatches ok_literal.
